@@ -96,7 +96,7 @@ impl Property for C20 {
         "C20"
     }
     fn cases(&self, cfg: &Cfg) -> u64 {
-        4 + cfg.tier.pick(50, 5_000)
+        4 + cfg.tier.pick(500, 5_000)
     }
     fn run_case(&self, cfg: &Cfg, i: u64, acc: &mut Acc) {
         let rs = RandomState::new();
